@@ -140,7 +140,9 @@ def run(ctx):
             return None
 
         first = ucfg.node_of(dloop.body[0])
-        reach = reachable_assuming(ucfg, first.id, valuation)
+        from ..logic import with_flags
+
+        reach = reachable_assuming(ucfg, first.id, with_flags(unpack_obj, valuation))
         kinds = set()
         for nd in ucfg.stmt_nodes():
             if nd.id not in reach or not isinstance(nd.ast, ast.Assign):
